@@ -30,8 +30,8 @@ func c09a(c *Ctx, r *Report) {
 	var pass *ast.ForStmt
 	var sortIdx, passIdx = -1, -1
 	for i, s := range f.Decl.Body.List {
-		if fs, ok := s.(*ast.ForStmt); ok && fs.Cond == nil {
-			pass, passIdx = fs, i
+		if fs, ok := s.(*ast.ForStmt); ok && fs.Init == nil && fs.Post == nil {
+			pass, passIdx = fs, i // `for { … if change == 0 { break } }` or `for change != 0 { … }`
 		}
 		if es, ok := s.(*ast.ExprStmt); ok {
 			if call, ok := es.X.(*ast.CallExpr); ok {
@@ -106,6 +106,37 @@ func c09a(c *Ctx, r *Report) {
 						exitOK = true
 					}
 				}
+			}
+		}
+	}
+	if pass.Cond != nil {
+		// condition form: the loop runs while the counter of the LAST pass is non-zero, and it is entered at least once
+		exitOK = false
+		if be, ok := unparen(pass.Cond).(*ast.BinaryExpr); ok && (be.Op == token.NEQ || be.Op == token.GTR) && change != nil && identObj(info, be.X) == change {
+			if v, isC := constInt(info, be.Y); isC && v == 0 {
+				entered := false
+				for _, s := range f.Decl.Body.List[:passIdx] {
+					switch x := s.(type) {
+					case *ast.AssignStmt:
+						if len(x.Lhs) == 1 && identObj(info, x.Lhs[0]) == change {
+							v, isC := constInt(info, x.Rhs[0])
+							entered = isC && v > 0
+						}
+					case *ast.DeclStmt:
+						ast.Inspect(x, func(m ast.Node) bool {
+							if vs, ok := m.(*ast.ValueSpec); ok {
+								for k, nm := range vs.Names {
+									if info.Defs[nm] == change && k < len(vs.Values) {
+										v, isC := constInt(info, vs.Values[k])
+										entered = isC && v > 0
+									}
+								}
+							}
+							return true
+						})
+					}
+				}
+				exitOK = entered
 			}
 		}
 	}
